@@ -1,5 +1,6 @@
 """Theta / Tuple structural rules (C01, C02, C13): strict screens, theta writers, pivot agreement, ordered-only
 shortcuts, emptiness, duplicate suppression, builder/reset agreement, seed checks."""
+import re
 from astu import strip, strip_all, walk, walkp, txt, short, is_this_field, field_name, local_decls, stmts_of, always_exits, functions_by
 from vlib.core import ob
 
@@ -633,7 +634,7 @@ def _result_paths(fn, entries_d):
         if s.get("k") != "If" or s.get("e") is not None:
             return False
         c = txt(s["c"]).replace(" ", "")
-        return c.startswith("(entries.size()>") and calls_named(s["t"], ("nth_element",)) and calls_named(s["t"], ("erase", "resize"))
+        return bool(re.match(r"^\([A-Za-z_0-9]+\.size\(\)>", c)) and touches(s["c"]) and calls_named(s["t"], ("nth_element",)) and calls_named(s["t"], ("erase", "resize"))
 
     def run(stmts, states):
         for s in stmts:
@@ -707,10 +708,20 @@ def result_claims(facts):
     for pat, fn in sorted(fns.items()):
         if fn["name"] not in ("get_result", "compute") or not any(x in fn["qname"] for x in ("theta_union_base", "theta_intersection_base", "theta_set_difference_base")):
             continue
-        ent = [v for v in local_decls(fn).values() if v.get("n") == "entries"]
-        if not ent:
+        # the result vector: the local that is moved into the 5th constructor argument of a returned compact sketch
+        cand = []
+
+        def rv(n):
+            if n.get("k") == "Return":
+                e = strip_all(n.get("e") or {})
+                while e.get("k") == "Construct" and len(e.get("args", [])) == 1:
+                    e = strip_all(e["args"][0])
+                if e.get("k") == "Construct" and len(e.get("args", [])) == 5:
+                    walk(e["args"][4], lambda x: cand.append(x["d"]) if x.get("k") == "Ref" and x.get("dk") == "local" else None)
+        walk(fn["body"], rv)
+        if not cand:
             continue
-        paths = _result_paths(fn, ent[0]["d"])
+        paths = _result_paths(fn, cand[0])
         base = short(fn["patq"])
         if not paths:
             out.append(ob("theta.result-claim", base + ":paths", fn["pat"], "unrecognised", "no `return CS(is_empty, flag, seed, theta, move(entries))` reached", fn["qname"]))
